@@ -92,6 +92,18 @@ class Terms:
                 return bool(t[1])
         return None
 
+    def _alt(self, cond: Term, a: Term, b: Term) -> Term:
+        """ALT(c, a, b); when one alternative is the other plus an appended part the result is the common part followed by an optional part
+        (`x = P + Q if c else P` is `x = P; if c: x = x + Q`)"""
+        def parts(t):
+            return list(t[1]) if t[0] == "CAT" else [t]
+        pa, pb = parts(a), parts(b)
+        if len(pa) > len(pb) and pa[:len(pb)] == pb:
+            return self._cat(pb + [("OPT", cond, self._cat(pa[len(pb):]))])
+        if len(pb) > len(pa) and pb[:len(pa)] == pa:
+            return self._cat(pa + [("OPT", ("NOT", cond), self._cat(pb[len(pa):]))])
+        return ("ALT", cond, a, b)
+
     def _name(self, fn: FunctionInfo, name: str, env, depth) -> Term:
         plain, upd, other = self._def_stmts(fn, name)
         P = self.eng.prog
@@ -113,12 +125,12 @@ class Terms:
                 pb, po = (plain[0], plain[1]) if s1 in i1.body else (plain[1], plain[0])
                 c = self._cond(fn, i1.test, env)
                 a, b = self._t(fn, pb[1], env, depth + 1), self._t(fn, po[1], env, depth + 1)
-                base = a if c is True else (b if c is False else ("ALT", ("LEAF", norm(i1.test)), a, b))
+                base = a if c is True else (b if c is False else self._alt(("LEAF", norm(i1.test)), a, b))
             elif isinstance(i2, ast.If) and s2 in i2.body and not i2.orelse and P.parent(s1) is P.parent(i2):
                 # x = A ; if c: x = B
                 c = self._cond(fn, i2.test, env)
                 a, b = self._t(fn, plain[0][1], env, depth + 1), self._t(fn, plain[1][1], env, depth + 1)
-                base = b if c is True else (a if c is False else ("ALT", ("LEAF", norm(i2.test)), b, a))
+                base = b if c is True else (a if c is False else self._alt(("LEAF", norm(i2.test)), b, a))
         if base is None:
             return ("LEAF", name)
         for st, rhs in upd:
